@@ -27,7 +27,7 @@ LEVEL = "fault_enumeration"
 ENGINE = "sansio+vloop"
 BUDGET = {"quick": (400, 20), "thorough": (20000, 240)}
 WORKERS = {"quick": 4, "thorough": 16}
-REQUIRED = ["handler.cases", "handler.connect_pending_long", "h2.cases", "h2.fault.connect_refused", "order", "final", "fault.client_cut", "fault.server_cut", "fault.connect_refused", "policy.kill", "policy.set_response", "policy.stream"]
+REQUIRED = ["handler.cases", "handler.connect_pending_long", "h2.cases", "h2.fault.connect_refused", "order", "final", "fault.client_cut", "fault.server_cut", "fault.connect_refused", "policy.kill", "policy.kill_in_transit", "policy.set_response", "policy.stream"]
 TECHNIQUE = "runtime monitoring: fault-position sweep on the sans-io driver + per-flow hook-order automaton"
 RULE = (
     "case = (spec of 1-3 HTTP/1 requests, fault kind and position, per-hook addon action vector, option toggles); quick samples offsets, "
@@ -331,8 +331,36 @@ def run(ctx):
                     ctx.count("early_origin_runs")
                 bias = early and salt != "nopolicy" and r.random() < 0.6
                 pol = fault_policy(spec, salt, taken, ctx, bias) if salt != "nopolicy" else None
+                # a kill "in transit": flow.kill() from outside any hook (UI kill button / flow.kill command / an addon holding
+                # the flow) at a random point of the exchange, so that the fault of this run may hit a flow that already
+                # carries an error but has not fired its error hook yet
+                setup = None
+                if r.random() < 0.3:
+                    seen_flows = []
+                    after = r.choice([r.randint(1, 30), r.randint(1, 120)])
+                    inner = pol
+
+                    def pol(drv, hook, inner=inner, seen_flows=seen_flows):
+                        f = getattr(hook, "flow", None)
+                        if isinstance(f, http.HTTPFlow) and f not in seen_flows:
+                            seen_flows.append(f)
+                        return inner(drv, hook) if inner is not None else None
+
+                    def setup(drv, seen_flows=seen_flows, after=after, taken=taken, rr=random.Random(r.getrandbits(32))):
+                        def gate(d):
+                            return d.step_no >= after and any(f.killable for f in seen_flows)
+
+                        def act(d):
+                            f = rr.choice([f for f in seen_flows if f.killable])
+                            f.kill()
+                            taken.add("transit:kill")
+                            ctx.count("policy.kill_in_transit")
+                            return None
+
+                        drv.injected.append(("transit-kill", act, gate))
+
                 try:
-                    d, info = h1case.execute(spec, opts, r, client_seg=r.choice(["whole", "random", "bytes"]) if len(stream) < 1500 else "random", server_seg=r.choice(["bytes", "whole", "random"]) if bias else r.choice(["whole", "random"]), schedule="random" if bias else sched, extra_policy=pol, client_eof=r.random() < 0.2, early_origin=early, **kw)
+                    d, info = h1case.execute(spec, opts, r, client_seg=r.choice(["whole", "random", "bytes"]) if len(stream) < 1500 else "random", server_seg=r.choice(["bytes", "whole", "random"]) if bias else r.choice(["whole", "random"]), schedule="random" if bias else sched, extra_policy=pol, client_eof=r.random() < 0.2, early_origin=early, setup=setup, **kw)
                 except Exception as e:
                     ctx.violation("harness-or-layer-crash", {"stream": stream, "fault": (kind, arg), "exc": repr(e)})
                     continue
